@@ -15,7 +15,7 @@ func init() {
 			"after every step every Get/GetAll/RangeScan/PrefixScan over the run's universe is compared with the ordered-map model at the simulated instant; " +
 			"a run is non-trivial when it rotated the segment file at least twice and its event-log hash is new",
 		Gen: func(r *core.Rng, tier string) *prog.Program {
-			p := gen.KVParams{Mega: 0.001,
+			p := gen.KVParams{Mega: 0.003,
 				Modes: []int{0, 1}, Segs: []int64{64, 96, 100, 128, 144, 192, 256, 512},
 				MinTx: 4, MaxTx: 30, MaxOps: 4, Buckets: 4,
 				TTL: r.Bool(0.7), Timestamps: r.Bool(0.5), Deletes: r.Bool(0.8), Advance: r.Bool(0.8),
